@@ -1143,8 +1143,10 @@ func scanPanicObligations(w *World, r *Report, rule string, cone map[*types.Func
 				return true
 			}
 			var rev *reviewedEntry
+			// a reviewed access whose operands now arrive as parameters of an unexported helper with one call site
+			ep := paramInstantiatedExpr(p, fd, expr)
 			for i := range reviewed {
-				if reviewed[i].Func == name && (reviewed[i].Expr == es || reviewed[i].Expr == en) {
+				if reviewed[i].Func == name && (reviewed[i].Expr == es || reviewed[i].Expr == en || (ep != "" && reviewed[i].Expr == ep)) {
 					rev = &reviewed[i]
 				}
 			}
